@@ -222,12 +222,17 @@ func WithTxReadClosers(ctx context.Context, db Database, opts *sql.TxOptions, fn
 	}
 
 	for i := range readers {
+		// A reader may be closed more than once; only its first Close counts.
+		var once sync.Once
 		readers[i] = ioutils.NewReadCloserWithCloseHook(readers[i], func() error {
-			if atomic.AddInt64(&remaining, -1) == 0 {
-				_ = verifhook.HitCtx(ctx, "tx.readclosers.release")
-				return tx.Rollback(ctx)
-			}
-			return nil
+			var err error
+			once.Do(func() {
+				if atomic.AddInt64(&remaining, -1) == 0 {
+					_ = verifhook.HitCtx(ctx, "tx.readclosers.release")
+					err = tx.Rollback(ctx)
+				}
+			})
+			return err
 		})
 	}
 	return readers, nil
